@@ -323,6 +323,13 @@ def gen_cases(ctx, cat, scale):
         if rng.random() < 0.25:      # an array holding exact zeros next to non-zero elements
             x = rng.choice([[0.0, 2.0, 4.0], [1.0, 0.0, -0.5, 0.0], [0.0, 0.0, 3.0], [2.5, -0.0]])
         cases.append(make_case(cat, rng, "reciprocal", x, iu, iv, rng))
+    # reciprocal pairs whose two factors are EQUAL and not 1 (kHz <-> ks, cm-1 <-> cm, mS <-> mOhm): a conversion that
+    # skips the scaling "because the factors agree" is right for linear pairs and wrong here (1/(x f^2), not 1/x)
+    for iu, iv in [([("k", "Hz", (1, 1))], [("k", "s", (1, 1))]), ([("M", "Hz", (1, 1))], [("M", "s", (1, 1))]),
+                   ([("c", "m", (-1, 1))], [("c", "m", (1, 1))]), ([("m", "S", (1, 1))], [("m", "Ohm", (1, 1))]),
+                   ([("k", "s", (1, 1))], [("k", "Hz", (1, 1))]), ([("k", "m", (1, 1)), (None, "s", (-1, 1))], [("k", "s", (1, 1)), (None, "m", (-1, 1))])]:
+        for x in (pick_value(rng, nonzero=True), 4.0, [2.0, 0.5, -8.0]):
+            cases.append(make_case(cat, rng, "reciprocal", x, iu, iv, rng))
     # -- bare number
     for _ in range((300 if thorough else 60) * scale):
         iv = rng.choice([
